@@ -35,7 +35,7 @@ func init() {
 			return !c29Accepted.MatchString(ans)
 		},
 		Assumptions: []string{
-			"the scramble comparison of CheckPassword is abstracted to equality of passwords in the C29 model (no SHA-1 collision among the generated passwords); the scrambles themselves are C30",
+			"the scramble comparison of CheckPassword is abstracted to equality of passwords in the C29 model (no SHA-1 collision among the generated passwords; clear-text passwords only: an entry in stored-hash form '*'+40 hex digits is skipped by CheckPassword since fix f737e0b); the scrambles themselves are C30",
 			"one control-plane operation at a time (Manager.ReloadNamespacePrepare+Commit and DeleteNamespace as atomic steps; their interleavings are C31)",
 		},
 	})
